@@ -62,11 +62,17 @@ let oracle_resp_of tbl (buf : bytes) : raw_resp oracle_out =
                                 rs_headers = headers_of hs })
   | _ -> failwith "oracle_resp"
 
+(* http::HeaderMap iterates name by name (first insertion order), all values of a name together: the callback's
+   appended headers reach the model in that order (the map's order is an oracle, see DESIGN) *)
+let group_headers (hs : (bytes * bytes) list) : (bytes * bytes) list =
+  let names = List.fold_left (fun acc (n, _) -> if List.mem n acc then acc else acc @ [n]) [] hs in
+  List.concat_map (fun n -> List.filter (fun (n', _) -> n' = n) hs) names
+
 let callback_of (s : string) : callback =
   match split ':' s with
   | ["none"] -> CbNone
-  | ["add"; hs] -> CbAdd (headers_of hs)
-  | ["rej"; st; body; hs] -> CbReject (n_of_string st, headers_of hs, (if body = "none" then None else Some (bytes_of_hex body)))
+  | ["add"; hs] -> CbAdd (group_headers (headers_of hs))
+  | ["rej"; st; body; hs] -> CbReject (n_of_string st, group_headers (headers_of hs), (if body = "none" then None else Some (bytes_of_hex body)))
   | _ -> failwith "callback"
 
 let hs_event_s = function
